@@ -34,7 +34,7 @@ func propTruth(t *rapid.T) {
 		if cfg.ReadsViaHTTP {
 			rec.Class("history_read_through_http_handler")
 		}
-		for _, k := range []string{"checkstate_mixed_states", "restore_mixed", "restart", "rotation", "melt_PENDING", "melt_UNPAID", "melt_PAID", "spend_with_witness", "outputs_upper_case_hex", "restore_of_refused_output", "restore_probe_after_refusal"} {
+		for _, k := range []string{"checkstate_mixed_states", "restore_mixed", "restart", "rotation", "melt_PENDING", "melt_UNPAID", "melt_PAID", "spend_with_witness", "outputs_upper_case_hex", "restore_of_refused_output", "restore_probe_after_refusal", "restore_bulk_request", "checkstate_bulk_query"} {
 			if m.Count[k] > 0 {
 				rec.Class("history_with_" + k)
 			}
